@@ -238,10 +238,17 @@ class PropertyCheck:
             if o.kind == "vacuity":
                 groups.setdefault(o.name, []).append(r["result"])
         partial = {ex.qualname for kind, c, ex in execs if ex.unsupported}     # execution aborted: path groups incomplete
+        # a function with an obligation that is not discharged is not claimed proved: an infeasible path group there is
+        # a symptom of the code disagreeing with the model (e.g. `.items()` reached with a non-dict), reported as
+        # undecided; only a vacuity that would hide behind an otherwise complete proof is a checker error
+        not_proved = {o.fn for o, r in zip(obls, results) if o.kind != "vacuity" and r["result"] != "unsat"}
         for g, rs in groups.items():
             if g.split("/")[0] in partial:
                 continue
             if rs and all(x == "unsat" for x in rs):
+                if g.split("/")[0] in not_proved:
+                    self.undecided.append({"obligation": g, "reason": "vacuous: every path of this group is infeasible under the model while other obligations of the function are not discharged"})
+                    continue
                 self.errors.append(f"vacuous proof: every path of {g} is infeasible under the stated assumptions (contradictory contract or model)")
         self.vacuity = {"groups": len(groups), "paths": sum(len(v) for v in groups.values()),
                         "infeasible_paths": sum(1 for v in groups.values() for x in v if x == "unsat")}
